@@ -29,7 +29,7 @@ PROPS = {
     'C06': dict(muh={'tlsf': MUH_TLSF, 'linear': MUH_LIN}),
     'C07': dict(vamh=dict(profiles=['defrag', 'pools', 'gran']), eng={'dfh': None}),
     'C08': dict(vamh=dict(profiles=VAMH_ALL), eng={'devh': ['basic', 'hyst', 'persist', 'mapfault', 'malformed']}),
-    'C09': dict(muh={'tlsf': ['gran', 'basic'], 'linear': ['gran', 'upper', 'ring']}, vamh=dict(profiles=['gran', 'defrag'])),
+    'C09': dict(muh={'tlsf': ['gran', 'basic'], 'linear': ['gran', 'upper', 'ring']}, vamh=dict(profiles=['gran', 'defrag']), eng={'dfh': ['gran', 'commitfail']}),
     'C10': dict(vamh=dict(profiles=['basic'], faults=['basic', 'map', 'pools', 'limits', 'defrag']), eng={'devh': ['mapfault', 'allocfault', 'limit']}),
     'C11': dict(vamh=dict(profiles=['limits', 'pools', 'basic'], race=True), eng={'devh': ['limit', 'count', 'allocfault']}),
     'C12': dict(vamh=dict(profiles=['basic'], race=True)),
